@@ -64,6 +64,11 @@ pub(crate) struct ZXController<H: Host> {
 }
 
 impl<H: Host> ZXController<H> {
+    #[cfg(rustzx_verif)]
+    pub fn verif_paging(&self) -> (u8, bool) {
+        (self.current_port_7ffd, self.paging_enabled)
+    }
+
     /// Returns new ZXController from settings
     #[allow(clippy::let_and_return)]
     pub fn new(settings: &RustzxSettings, host_context: H::Context) -> Self {
